@@ -128,7 +128,7 @@ CHECKS = {
         text='For every fitted GP of the family (dimension, evidence size, target function, hyper-parameters initial and '
              'optimised) the posterior log density is compared with log Phi((h-mu)/sd)+log prior on a full grid including '
              'exact bounds and points just outside, its gradient with central differences, and the accelerated '
-             'single-point predictions/gradients with GPy; every history of updates (three batch shapes), mode toggles, '
+             'single-point predictions/gradients (with and without the noise variance) with GPy; every history of updates (three batch shapes), mode toggles, '
              'optimisations and predictions must keep evidence as an ordered prefix and never serve outdated cached values, also when a copy of the surrogate is alive and either object is continued. '
              'The posterior BOLFI itself hands out (fit / extract_posterior, default and user-given surrogates with '
              'parameter order a,b and b,a, non-exchangeable priors) is judged against GPy plus scipy priors.',
